@@ -505,7 +505,29 @@ fn alloc_number(w: &mut W, next_free: &mut u32, gaps: &mut Vec<u32>) -> u32 {
     n
 }
 
+/// Encryption applied while writing (ISO 32000-1 7.6.1): every string and stream of an indirect object written
+/// plainly is transformed with that object's number and generation; objects placed inside an object stream stay as they
+/// are and the container stream is transformed instead; cross-reference streams and the objects in `skip` (the encryption
+/// dictionary) are left alone, and `skip` objects are never placed in an object stream.
+pub struct WEnc<'a> {
+    pub f: &'a dyn Fn(u32, u16, &AObj) -> AObj,
+    pub skip: BTreeSet<u32>,
+    /// may the integer holding an indirect /Length live in an (encrypted) object stream? A reader then has to decrypt
+    /// the container before it can delimit the stream (legal; tied to a known finding)
+    pub length_in_objstm: bool,
+}
+
 pub fn write(f: &WFile) -> WOutput {
+    write_with(f, None)
+}
+
+pub fn write_with(f: &WFile, enc: Option<&WEnc>) -> WOutput {
+    let crypt = |num: u32, gen: u16, o: &AObj| -> AObj {
+        match enc {
+            Some(e) if !e.skip.contains(&num) => (e.f)(num, gen, o),
+            _ => o.clone(),
+        }
+    };
     let mut res = WOutput::default();
     let mut w = W { out: Vec::new(), tape: Tape { t: &f.tape.0, pos: 0 }, feat: BTreeSet::new(), raw_eol: f.raw_eol_in_strings, plain_ws: false, no_sep: false };
     let junk_len = f.junk.0.len();
@@ -539,7 +561,7 @@ pub fn write(f: &WFile) -> WOutput {
         let mut plain: Vec<(u32, u16, AObj)> = vec![];
         let mut packed: Vec<Vec<(u32, AObj)>> = vec![];
         for o in &rev.objects {
-            let eligible = use_objstm && o.1 == 0 && !matches!(o.2, AObj::Stream(..));
+            let eligible = use_objstm && o.1 == 0 && !matches!(o.2, AObj::Stream(..)) && !enc.map(|e| e.skip.contains(&o.0)).unwrap_or(false);
             if eligible && w.tape.pick(3) != 1 {
                 let limit = 1 + w.tape.pick(6);
                 if packed.last().map(|g| g.len() >= limit).unwrap_or(true) {
@@ -563,6 +585,7 @@ pub fn write(f: &WFile) -> WOutput {
         let mut in_objstm: Vec<(u32, AObj)> = vec![];
         for (num, gen, obj) in &plain {
             placement.insert(*num, None);
+            let obj = &crypt(*num, *gen, obj);
             let mut length = None;
             if let AObj::Stream(_, c) = obj {
                 let len = c.0.len() as i64;
@@ -576,7 +599,7 @@ pub fn write(f: &WFile) -> WOutput {
                             w.feat.insert("indirect-length-before");
                             write_indirect(&mut w, ln, 0, &AObj::Int(len), None, &mut entries);
                         }
-                        3 if use_objstm => {
+                        3 if use_objstm && enc.map(|e| e.length_in_objstm).unwrap_or(true) => {
                             w.feat.insert("indirect-length-in-objstm");
                             in_objstm.push((ln, AObj::Int(len)));
                         }
@@ -678,7 +701,7 @@ pub fn write(f: &WFile) -> WOutput {
                 entries.insert(*num, XEntry::Compressed(cnum, i as u32));
                 placement.insert(*num, Some(cnum));
             }
-            write_indirect(&mut w, cnum, 0, &AObj::Stream(d, B(data)), None, &mut entries);
+            write_indirect(&mut w, cnum, 0, &crypt(cnum, 0, &AObj::Stream(d, B(data))), None, &mut entries);
         }
         max_num_so_far = max_num_so_far.max(entries.keys().max().copied().unwrap_or(0));
         // cross-reference section
